@@ -153,6 +153,35 @@ def run_case(c):
     return rec
 
 
+def run_long(c):
+    """Long series: compiled vs pure-Python cross-correlation at lag 0; closed forms of the binned surrogate test."""
+    from pyunicorn.funcnet import CouplingAnalysis
+    from pyunicorn.funcnet.coupling_analysis_pure_python import CouplingAnalysisPurePython
+    from pyunicorn.timeseries import Surrogates
+    T = c["T"]
+    rec = dict(c)
+    o = {"exc": ""}
+    try:
+        if c["kind"] == "cc":
+            rng = np.random.RandomState(T)
+            base = rng.randint(0, 4, size=(T, 3)).astype(float)
+            base[:, 2] = base[:, 0] + rng.randint(0, 2, size=T)          # a correlated third series
+            o["cc"] = enc.arr(CouplingAnalysis(base.copy(), silence_level=3).cross_correlation(
+                tau_max=0, lag_mode="all")[:, :, 0])
+            o["pure"] = enc.arr(CouplingAnalysisPurePython(base.copy(), silence_level=3).cross_correlation(
+                tau_max=0, lag_mode="all")[0])
+        else:
+            t = np.arange(T)
+            # a balanced 0/1 series, a copy of it and an independent balanced series (the diagonal of the test
+            # matrix is 0 by convention: identical series are compared through rows 0 and 1)
+            x = np.array([t % 2, t % 2, (t // 2) % 2], dtype=float)
+            o["tmi"] = enc.arr(Surrogates.test_mutual_information(x.copy(), x.copy(), n_bins=2))
+    except Exception as ex:
+        o["exc"] = type(ex).__name__
+    rec["obs"] = o
+    return rec
+
+
 IT_CONFS = [{"cond": "ity", "past": 1, "taumax": 2}, {"cond": "ity", "past": 2, "taumax": 1},
             {"cond": "mit", "past": 1, "taumax": 2}, {"cond": "ity", "past": 2, "taumax": 2},
             {"cond": "mit", "past": 1, "taumax": 1}]
@@ -206,9 +235,19 @@ def main(ctx):
     itcases = ctx.gen_cached("Gen_C10it", "Gen_C10it_" + ctx.tier)
     itrecs = ctx.run_cases("props.c10.run_it_case", itcases)
     ctx.validate("Val_C10it", "Val_C10it", itrecs, stage="Val_C10it", nontrivial=lambda r: True)
+    # long series (windows beyond 1024 samples; bin counts whose products exceed 2^31)
+    longs = [{"case": "Lcc%d" % T, "kind": "cc", "T": T} for T in (1030, 1100, 2500)] + \
+            [{"case": "Ltmi%d" % T, "kind": "tmi", "T": T} for T in (8, 1000, 100000, 400000)]
+    lrecs = ctx.run_cases("props.c10.run_long", longs)
+    ctx.validate("Val_C10long", "Val_C10long", lrecs, stage="Val_C10long", nontrivial=lambda r: True)
 
 
 def replay(ctx, rep):
+    if rep["record"].get("kind") in ("cc", "tmi"):
+        case = {k: rep["record"][k] for k in ("case", "kind", "T")}
+        lrecs = ctx.run_cases("props.c10.run_long", [case], jobs=1)
+        ctx.validate("Val_C10long", "Val_C10long", lrecs, stage="Val_C10long", nontrivial=lambda r: True)
+        return
     rec = rep["record"]
     if rec["case"].startswith("it"):
         case = {k: rec[k] for k in ("case", "T", "seed", "data")}
